@@ -68,6 +68,8 @@ def run(seed, tier):
     for i in range(ncfg):
         kind = ['default', 'partial', 'td', 'joint', 'family'][i % 5]
         cfg = C.gen(rng, kind=kind)
+        if kind == 'family' and i % 10 == 4:
+            cfg['family'] = 'wide_normal_in_narrow_box'          # rarely taken code paths of the rejection loops
         cfg['nchains'] = rng.choice([1, 2, 3])
         cfgs.append((cfg, rng.choice([[5], [2, 4], [7]])))
     jobs = []
